@@ -255,50 +255,113 @@ def rule_row_scaling(F, ev_unused, R, config, rule="R-ROW-SCALING"):
     R.floor(rule, config, 3, "Weights::mul, DiagMatrix::mul return + column scaling")
 
 
+def local_callers(F):
+    """{callee key: set of caller body keys} over resolved local calls (closures count for their root)"""
+    cs = getattr(F, "_local_callers", None)
+    if cs is None:
+        cs = {}
+        for b in F.bodies.values():
+            for bi, t in b.calls():
+                if "fn" in t:
+                    k = t["fn"].get("resolved_key") or t["fn"].get("key")
+                    if k in F.bodies:
+                        cs.setdefault(k, set()).add(b.j.get("root", b.key))
+            for bi, si, st in b.stmts():
+                # functions passed by reference (`.map(helper)`)
+                if st["k"] == "assign":
+                    for o in rv_operands(st["rv"]):
+                        if o.get("k") == "const" and "fn" in o:
+                            k = o["fn"].get("resolved_key") or o["fn"].get("key")
+                            if k in F.bodies:
+                                cs.setdefault(k, set()).add(b.j.get("root", b.key))
+        F._local_callers = cs
+    return cs
+
+
+def rv_operands(rv):
+    for k in ("op", "a", "b"):
+        if isinstance(rv.get(k), dict):
+            yield rv[k]
+    for o in rv.get("ops", []) or []:
+        yield o
+
+
+def is_entry(F, b):
+    """a function the outside can call: public, a trait method, or without local callers"""
+    if b.kind == "Closure":
+        return False
+    im = b.j.get("impl", {})
+    if "trait" in im:
+        return True
+    if b.j.get("vis") == "pub":
+        return True
+    return not (local_callers(F).get(b.key, set()) - {b.key})
+
+
+ROLE_ADTS = (ADT_PROBLEM, ADT_PBUILDER, ADT_STATS, ADT_SOLVER, ADT_FITRESULT)
+
+
+def role_entries(F):
+    """functions at which an analysis per role type starts: callable from outside, or called from
+    code that belongs to a different role type (FitStatistics::try_calculate from the solver)"""
+    out = []
+    for b in sorted(F.bodies.values(), key=lambda x: x.key):
+        if b.kind == "Closure":
+            continue
+        if is_entry(F, b):
+            out.append(b)
+            continue
+        role = b.j.get("impl", {}).get("self_adt")
+        if role in ROLE_ADTS:
+            for ck in local_callers(F).get(b.key, ()):
+                cr = F.bodies[ck].j.get("impl", {}).get("self_adt") if ck in F.bodies else None
+                if cr != role:
+                    out.append(b)
+                    break
+    return out
+
+
 def rule_weight_sites(F, ev, R, config, rule="R-WEIGHT-SITES"):
     """every multiplication by weights uses the single weights role of the problem, exactly once
-    per sample-space quantity (Y at build, Φ in set_params, D_k in jacobian, J and Φ·c in statistics)"""
+    per sample-space quantity (Y at build, Φ in set_params, D_k in jacobian, J and Φ·c in statistics).
+    Decided per ENTRY function on the effects collected through inlined helpers and closures, so a
+    wrapper around the multiplication or a helper that receives the weights as an argument is seen
+    through; every multiplication site of the crate must be reached from some entry."""
+    from effects import iteration_effects
     pr = problem_roles(F)
-    n = 0
-    for b in sorted(F.bodies.values(), key=lambda x: x.key):
-        root = F.bodies.get(b.j.get("root", b.key), b)
+    all_sites = set()
+    for b in F.bodies.values():
         for bi, t in b.calls():
-            if "fn" not in t or callee_id(t["fn"]) != "std::ops::Mul::mul" or t["fn"].get("self_adt") != ADT_WEIGHTS:
-                continue
-            n += 1
-            # evaluate in the root so captures resolve
-            v = None
-            if b.kind == "Closure":
-                env = Env(root)
-                for rbi, rt in root.calls():
-                    ev.call_val(env, rbi)
-                cts = ev.site_terms.get((b.key, bi), [])
-                if not cts:
-                    # closure applied by an iterator adapter: resolve captures explicitly
-                    cl = closure_terms_in(ev, env)
-                    ct = cl.get(b.key)
-                    if ct is not None:
-                        cenv = Env(b, {1: ct, 2: ("sym", "arg")}, 1)
-                        v = ev.call_val(cenv, bi)
-                else:
-                    v = cts[0]
-            else:
-                v = ev.call_val(Env(b), bi)
-            if v is None or v[0] != "call":
-                R.bad(rule, config, b.key, "weights@bb%d" % bi, "cannot resolve the operands of this weight multiplication (undetermined)", t.get("span"))
-                continue
-            W, M = v[3]
-            im = root.j.get("impl", {})
+            if "fn" in t and callee_id(t["fn"]) == "std::ops::Mul::mul" and t["fn"].get("self_adt") == ADT_WEIGHTS:
+                all_sites.add((b.key, bi))
+    covered = set()
+    entries = role_entries(F)
+    # entries are analysed one by one: an entry called from another entry is a boundary, not inlined
+    ev = Eval(F, opaque=set(ev.opaque) | set(b.key for b in entries))
+    for b in entries:
+        im = b.j.get("impl", {})
+        env = Env(b)
+        try:
+            effs = [e for e in iteration_effects(ev, env) if e.kind == "call" and e.cid == "std::ops::Mul::mul" and e.head == ADT_WEIGHTS]
+        except RecursionError:
+            effs = []
+        me = ("param", b.key, 1)
+        for e in effs:
+            covered.add((e.body.key, e.block))
+            W, M = e.args[0], e.args[1]
             inst = "W·%s" % (short(M)[:60])
             if im.get("self_adt") == ADT_PROBLEM:
-                okw = W == ("field", ("param", root.key, 1), pr["weights"])
+                okw = W == ("field", me, pr["weights"])
                 msg = "weight operand `%s` is not the problem's weights" % short(W)[:120]
             elif im.get("self_adt") == ADT_PBUILDER:
-                okw = W[0] == "field" and W[1] == ("param", root.key, 1)
+                okw = W[0] == "field" and W[1] == me
                 msg = "weight operand `%s` is not the builder's weights" % short(W)[:120]
             elif im.get("self_adt") == ADT_STATS:
                 okw = W[0] == "param"
                 msg = "weight operand `%s` is not the weights argument" % short(W)[:120]
+            elif im.get("self_adt") == ADT_WEIGHTS and W == me:
+                # a method of the weights themselves (a wrapper around the operator): decided at its callers
+                continue
             else:
                 okw = False
                 msg = "weight multiplication in an unexpected place (undetermined)"
@@ -311,7 +374,7 @@ def rule_weight_sites(F, ev, R, config, rule="R-WEIGHT-SITES"):
                     x0 = x
                     while x0[0] in ("mutated", "payload", "opt"):
                         x0 = x0[1]
-                    if x0 == ("field", ("param", root.key, 1), pr["data"]):
+                    if x0 == ("field", me, pr["data"]):
                         return True
                     if depth < 6 and x0[0] == "call" and x0[1] in ("std::ops::Mul::mul", "std::ops::Sub::sub", "std::ops::Add::add", "std::ops::Neg::neg") or \
                             (x0[0] == "call" and x0[1].rsplit("::", 1)[-1] in ("transpose", "clone", "column", "rows", "columns")):
@@ -321,7 +384,10 @@ def rule_weight_sites(F, ev, R, config, rule="R-WEIGHT-SITES"):
             if twice:
                 okw = False
                 msg = "weights applied to an already weighted quantity `%s`" % short(M)[:120]
-            R.add(rule, config, b.key, inst, okw, "" if okw else msg, t.get("span"))
+            R.add(rule, config, b.key, inst, okw, "" if okw else msg, e.term.get("span"))
+    for k, bi in sorted(all_sites - covered):
+        R.bad(rule, config, k, "weights@bb%d" % bi, "this weight multiplication is not reached from any entry function through modelled calls (undetermined)",
+              F.bodies[k].blocks[bi]["term"].get("span"))
     R.floor(rule, config, 4 if config == "default" else 5, "build 1, basis matrix >= 1, derivative 1/2, statistics 2 (a shared helper may serve both flavours)")
 
 
@@ -927,19 +993,18 @@ def rule_initial_set_params(F, ev, R, config, rule="R-INITIAL-SET-PARAMS"):
     p, sites = strip_mut(oks[0][3][0][1])
     ok = False
     msg = "the built problem is returned without a parameter update at the model's initial parameters"
-    if len(sites) == 1:
-        _, blk, si = sites[0]
-        tmp = b.blocks[blk]["stmts"][si]["place"]["l"]
-        cons = [c for c in consumers(b, tmp) if c["kind"] == "call"]
-        if len(cons) == 1 and "fn" in cons[0]["term"] and cons[0]["term"]["fn"].get("trait") == TRAIT_LSP and cons[0]["term"]["fn"]["name"] == "set_params":
-            env = Env(b)
-            a1 = ev.operand(env, cons[0]["term"]["args"][1], (cons[0]["block"], None))
-            if is_call(a1, TRAIT_MODEL + "::params") and a1[3][0] == ("field", ("param", b.key, 1), br["model"]):
-                ok = True
-            else:
-                msg = "initial parameter update uses `%s`, not the model's own parameters" % short(a1)[:120]
-    elif len(sites) > 1:
-        msg = "the problem is mutated %d times before being returned (undetermined)" % len(sites)
+    # the update may sit in build() itself or in a private helper it calls: look at the effects
+    from effects import iteration_effects
+    me = ("param", b.key, 1)
+    ups = [e for e in iteration_effects(ev, Env(b)) if e.kind == "call" and e.cid == TRAIT_LSP + "::set_params" and strip_mut(e.args[0])[0] == p]
+    if len(sites) == 1 and len(ups) == 1:
+        a1 = ups[0].args[1]
+        if is_call(a1, TRAIT_MODEL + "::params") and a1[3][0] == ("field", me, br["model"]):
+            ok = True
+        else:
+            msg = "initial parameter update uses `%s`, not the model's own parameters" % short(a1)[:120]
+    elif len(sites) > 1 or len(ups) > 1:
+        msg = "the problem is mutated %d times before being returned (undetermined)" % max(len(sites), len(ups))
     R.add(rule, config, b.key, "ok-passes-set_params(model.params)", ok, "" if ok else msg, b.j["span"])
     R.floor(rule, config, 1, "build()")
 
